@@ -614,7 +614,8 @@ impl Decoder {
                 }
                 let (iv, ciphertext) = data.split_at_mut(16);
                 let cipher =
-                    t!(Aes256CbcDec::new_from_slices(self.key(), iv).map_err(|_| PdfError::DecryptionFailure));
+                    // the whole 32-byte file key (key() is the 16-byte view the older schemes hash)
+                    t!(Aes256CbcDec::new_from_slices(&self.key, iv).map_err(|_| PdfError::DecryptionFailure));
                 Ok(t!(cipher
                     .decrypt_padded_mut::<Pkcs7>(ciphertext)
                     .map_err(|_| PdfError::DecryptionFailure)))
